@@ -1070,7 +1070,11 @@ class Engine(object):
             if args and args[0].isstr:
                 self.hit('hash_str', 'hash() of a str depends on PYTHONHASHSEED: %s' % ast.unparse(node)[:80], frame, node)
             elif args and not args[0].isint:
-                self.assume('hash() at %s: argument assumed not to be a str/bytes (hash randomisation)' % frame.where(node))
+                # the argument's type is not tracked (a tuple holding a str, an object with the default id-based hash, ...):
+                # a CANDIDATE ambient source -- the caller decides it by a two-process replay (different PYTHONHASHSEED),
+                # and it stays an assumption when no replay exists or the replay does not diverge
+                self.hit('hash_maybe_salted', 'hash() of a value of untracked type may depend on PYTHONHASHSEED / object identity: %s'
+                         % ast.unparse(node)[:80], frame, node)
             return compose(allv, isint=True)
         if name == 'id':
             self.assume('id() at %s assumed not to influence results' % frame.where(node))
@@ -1826,8 +1830,10 @@ class Engine(object):
     def summary(self):
         col = self.col
         ambient, excluded = [], []
+        candidates = []
         for site, h in sorted(col.hits.items()):
-            ambient.append({'site': site, 'kind': h['kind'], 'what': h['what'], 'where': h['where']})
+            (candidates if h['kind'] == 'hash_maybe_salted' else ambient).append(
+                {'site': site, 'kind': h['kind'], 'what': h['what'], 'where': h['where']})
         for site, c in sorted(col.clock_sites.items()):
             if c['escapes']:
                 ambient.append({'site': site, 'kind': 'wall_clock', 'what': '%s read and its value %s' % (c['what'], '; '.join(c['escapes'][:4])),
@@ -1836,7 +1842,7 @@ class Engine(object):
                 excluded.append('%s at %s excluded by sink: value reaches only %s' % (c['what'], c['where'], ', '.join(sorted(set(c['sinks']))) or 'nothing (discarded)'))
         excluded += [v for _, v in sorted(col.pruned.items())]
         return {
-            'closure': sorted(col.closure), 'ambient': ambient, 'excluded': excluded,
+            'closure': sorted(col.closure), 'ambient': ambient, 'candidates': candidates, 'excluded': excluded,
             'rng_ctors': [v for _, v in sorted(col.rng_ctors.items())],
             'rng_uses': sorted(col.rng_uses),
             'forwards': [v for _, v in sorted(col.forwards.items())],
